@@ -100,6 +100,14 @@ def generate(g, tier):
         for cx in CTX:
             if cx.startswith('$ENTER') and e in ('10^400', '10.0^400'): continue      # the D19 probe below covers huge counts
             cases.append(dict(op='compile', src=dict(text=cx.format(e)), meta=dict(family='edge')))
+    # runaway recursion and the deepest legal chains at the largest stack limits the CLI accepts: the stack limit must answer
+    # before the host stack does (StackOverflowError, never RecursionError)
+    for L in (150, 180, 200):
+        for t in ('FUNC f\n    RUN f\nRUN f', 'FUNC a\n    RUN b\nFUNC b\n    RUN a\nRUN a', 'FUNC f n\n    IF n>=0\n        RUN f n+1\nRUN f 0',
+                  'FUNC f n\n    REPEAT 1\n        WHILE w,w<1\n            RUN f n+1\nRUN f 0'):
+            cases.append(dict(op='compile', opts=dict(stack_limit=L), src=dict(text=t), meta=dict(family='host-stack', expect_cls='StackOverflowError')))
+        chain = '\n'.join([f'FUNC g{k}\n    RUN g{k + 1}' for k in range(L - 2)] + [f'FUNC g{L - 2}\n    STRING bottom', 'RUN g0'])
+        cases.append(dict(op='compile', opts=dict(stack_limit=L), src=dict(text=chain), meta=dict(family='host-stack', expect_ok=True)))
     # known-finding probes (each costs a timeout or a deep recursion): a few per run
     cases.append(dict(op='compile', src=dict(text='$STRING 10^5000'), meta=dict(family='probe', probe='huge-int-str', nocorr=True)))
     cases.append(dict(op='compile', src=dict(text='$STRING ²'), meta=dict(family='probe', nocorr=True)))
@@ -124,6 +132,10 @@ def oracle(cases, results):
             where = r.get('where') or '?'
             fs.append(fail(i, f'compilation does not finish within the per-case timeout (busy in {where})',
                            'hang:' + (where if where != '?' else c.get('meta', {}).get('probe', c.get('meta', {}).get('family', '?')))))
+        elif c.get('meta', {}).get('expect_cls') and (k != 'cerr' or r.get('cls') != c['meta']['expect_cls']):
+            fs.append(fail(i, f'runaway recursion at stack limit {c["opts"]["stack_limit"]} should end in {c["meta"]["expect_cls"]}: {k} {r.get("cls", r.get("exc"))}', f'host-stack:{k}:{r.get("cls", r.get("exc"))}'))
+        elif c.get('meta', {}).get('expect_ok') and k != 'ok':
+            fs.append(fail(i, f'a legal call chain of depth {c["opts"]["stack_limit"] - 1} under stack limit {c["opts"]["stack_limit"]} fails: {k} {r.get("cls", r.get("exc"))}', f'host-stack-legal:{k}:{r.get("cls", r.get("exc"))}'))
         elif k == 'cerr' and r.get('trace_limit_bad'):
             fs.append(fail(i, f'stack_traceback(n) is not the n innermost entries: {r["trace_limit_bad"][:2]}', 'trace-limit'))
     return fs
